@@ -88,6 +88,8 @@ pub enum Op {
     Overwrite(u8),
     SetLen(u8),
     Clear,
+    /// `Clone::clone_from` a path built from pool entry .0 with length class .1; .2: the source has its curve cached
+    CloneFrom(u8, u8, bool),
 }
 
 #[derive(Clone)]
@@ -183,6 +185,14 @@ pub fn apply(s: &mut S, op: &Op, pool: &[Vec<PathControlPoint>], mode: GameMode)
             s.path.clear_curve();
             None
         }
+        Op::CloneFrom(i, l, cached) => {
+            let mut src = SliderPath::new(mode, pool[*i as usize].clone(), LENS[*l as usize]);
+            if *cached {
+                let _ = src.curve();
+            }
+            s.path.clone_from(&src);
+            None
+        }
     }
 }
 
@@ -209,6 +219,10 @@ pub fn ops(_tier: Tier) -> Vec<Op> {
     }
     for l in 0..nl {
         v.push(Op::SetLen(l));
+    }
+    for i in 0..n {
+        v.push(Op::CloneFrom(i, (i % nl) as u8, i % 2 == 0));
+        v.push(Op::CloneFrom(i, ((i + 1) % nl) as u8, i % 2 == 1));
     }
     v
 }
@@ -271,6 +285,7 @@ fn op_from_str(s: &str) -> Op {
         "Pop" => Op::Pop,
         "Overwrite" => Op::Overwrite(nums[0]),
         "SetLen" => Op::SetLen(nums[0]),
+        "CloneFrom" => Op::CloneFrom(nums[0], nums[1], s.contains("true")),
         _ => Op::Clear,
     }
 }
@@ -326,7 +341,7 @@ pub fn run(tier: Tier) -> i32 {
         rule: format!(
             "stateright BFS over (shared CurveBuffers, one SliderPath with its cache); {} operations: owned/borrowed \
              computation of every pool entry x requested length, the three SliderPath curve getters, push/pop/overwrite \
-             through control_points_mut, expected_dist_mut, clear_curve; every curve returned is compared bit-wise with \
+             through control_points_mut, expected_dist_mut, clear_curve, Clone::clone_from another path; every curve returned is compared bit-wise with \
              Curve::new on fresh buffers for the CURRENT points/length. distinct_nontrivial = distinct canonical \
              (buffers, path, cache) states",
             ops.len()
